@@ -30,7 +30,7 @@ def build_engine(tier):
 
 
 def _verify_one(args):
-    key, tier = args
+    key, case, tier = args
     try:
         e, reg = build_engine(tier)
         t0 = time.time()
@@ -38,7 +38,7 @@ def _verify_one(args):
             reg.LEMMAS[key](e)
             rep = dict(key=key, paths=0, undecided=[], cases={}, time_s=time.time() - t0, sha256=None)
         else:
-            rep = e.verify(key)
+            rep = e.verify(key, only_case=case)
         res = []
         for k, r in e.results.items():
             r = dict(r)
@@ -77,8 +77,19 @@ def main(argv=None):
         keys = list(prop["functions"]) + list(prop.get("lemmas", []))
         if a.only:
             keys = [k for k in keys if re.search(a.only, k)]
-        with mp.get_context("fork").Pool(min(a.jobs, max(1, len(keys)))) as pool:
-            outs = pool.map(_verify_one, [(k, tier) for k in keys], chunksize=1)
+        e0, _ = build_engine(tier)
+        jobs = []
+        for k in keys:
+            if k.startswith("lemma:"):
+                jobs.append((k, None, tier))
+            elif k not in e0.contracts:
+                raise KeyError(f"no contract registered for {k}")
+            else:
+                jobs += [(k, cn, tier) for cn, _ in e0.contracts[k].cases]
+        # longest jobs first (recorded cost hints), so that the pool is balanced
+        jobs.sort(key=lambda j: -reg.COST.get(j[0], 1))
+        with mp.get_context("fork").Pool(min(a.jobs, max(1, len(jobs)))) as pool:
+            outs = pool.map(_verify_one, jobs, chunksize=1)
     except Exception:
         traceback.print_exc()
         return 3
@@ -88,7 +99,14 @@ def main(argv=None):
     fn_reports, results = {}, []
     for k, rep, res, err in outs:
         if rep is not None:
-            fn_reports[k] = rep
+            if k in fn_reports:
+                old = fn_reports[k]
+                old["cases"].update(rep.get("cases", {}))
+                old["paths"] = old.get("paths", 0) + rep.get("paths", 0)
+                old["undecided"] = old.get("undecided", []) + rep.get("undecided", [])
+                old["time_s"] = old.get("time_s", 0) + rep.get("time_s", 0)
+            else:
+                fn_reports[k] = rep
         results.extend(res)
     # ---- verdicts ------------------------------------------------------------------------------
     known = [f for f in load_known() if f.get("property") == pid and f.get("status") == "known"]
